@@ -137,6 +137,15 @@ Fixpoint ins_lit (c : byte) (s' : shape) (v : V) (l : list (byte * trie)) : list
 Definition build (pats : list (shape * V)) : trie :=
   fold_left (fun t e => insert (fst e) (snd e) t) pats empty.
 
+(* parameter nesting depth: how deep lookup recurses on this trie (the fuel the array model needs) *)
+Fixpoint pdepth (t : trie) : nat :=
+  match t with
+  | Node _ lits par _ =>
+    Nat.max ((fix go (l : list (byte * trie)) : nat :=
+                match l with [] => 0 | ct :: r => Nat.max (pdepth (snd ct)) (go r) end) lits)
+            (match par with Some tp => S (pdepth tp) | None => 0 end)
+  end.
+
 End Trie.
 
 Arguments trie : clear implicits.
